@@ -4,7 +4,7 @@
    /repo/core/vm/contracts.go (PrecompiledContractsCancun / Prague / Osaka).
 
    Names other families rely on (keep stable):
-     cancun prague osaka cancun_precompiles prague_precompiles osaka_precompiles
+     cancun prague osaka osaka8024 cancun_precompiles prague_precompiles osaka_precompiles
      spec_precompile
    No proofs in this file. *)
 From Coq Require Import List NArith Bool.
@@ -19,12 +19,17 @@ Definition cancun_precompiles : list N := [1; 2; 3; 4; 5; 6; 7; 8; 9; 10].
 Definition spec_precompile (a : N) (input : list N) : N * option (list N) :=
   if a =? 4 then (identity_gas (lenN input), Some input) else (0, None).
 Definition cancun : fork :=
-  mk_fork false false (fun a => (1 <=? a) && (a <=? 10)) spec_precompile keccak256.
+  mk_fork false false (fun a => (1 <=? a) && (a <=? 10)) spec_precompile keccak256 false.
 (* Prague: BLS12-381 precompiles 0x0b..0x11, EIP-7702 delegation resolution *)
 Definition prague_precompiles : list N := cancun_precompiles ++ [11; 12; 13; 14; 15; 16; 17].
 Definition prague : fork :=
-  mk_fork false true (fun a => (1 <=? a) && (a <=? 17)) spec_precompile keccak256.
+  mk_fork false true (fun a => (1 <=? a) && (a <=? 17)) spec_precompile keccak256 false.
 (* Osaka: + CLZ (EIP-7939), + P256VERIFY at 0x100 *)
 Definition osaka_precompiles : list N := prague_precompiles ++ [256].
 Definition osaka : fork :=
-  mk_fork true true (fun a => ((1 <=? a) && (a <=? 17)) || (a =? 256)) spec_precompile keccak256.
+  mk_fork true true (fun a => ((1 <=? a) && (a <=? 17)) || (a =? 256)) spec_precompile keccak256 false.
+
+(* the jump table "Osaka + EIP 8024" (vm.Config.ExtraEips = [8024]): the stack opcodes of
+   Amsterdam without its two-dimensional gas *)
+Definition osaka8024 : fork :=
+  mk_fork true true (fun a => ((1 <=? a) && (a <=? 17)) || (a =? 256)) spec_precompile keccak256 true.
